@@ -152,6 +152,57 @@ def name_from_href(href):
     return p.rstrip("/").rsplit("/", 1)[-1]
 
 
+def parse_etag_list(value):
+    """-> (wellformed, star, [strong etags]).  Strong comparison (RFC 7232 2.3.2)."""
+    items = [x.strip(" \t") for x in value.split(",")]
+    star = False
+    tags = []
+    well = True
+    for it in items:
+        if it == "*":
+            star = True
+        elif len(it) >= 2 and it[0] == '"' and it[-1] == '"' and '"' not in it[1:-1]:
+            tags.append(it)
+        else:
+            well = False
+    if star and len(items) > 1:
+        well = False
+    if not items or items == [""]:
+        well = False
+    return well, star, tags
+
+
+def cond_truth(hdrs, exists, cur_etag):
+    """Evaluate If-Match / If-None-Match.  Returns (passes, decided):
+    decided=False when a header value is malformed/weak (either outcome allowed)."""
+    passes = True
+    decided = True
+    for k, v in hdrs:
+        kl = k.lower()
+        if kl not in ("if-match", "if-none-match"):
+            continue
+        well, star, tags = parse_etag_list(v)
+        if not well:
+            decided = False
+        matches = exists and (star or (cur_etag in tags))
+        if kl == "if-match":
+            if not matches:
+                passes = False
+        else:
+            if matches:
+                passes = False
+    return passes, decided
+
+
+def uid_of_member(name, raw, ctype="text/calendar"):
+    if not (name.endswith(".ics") or ctype.split(";")[0].strip() == "text/calendar"):
+        return None
+    try:
+        return icalref.calendar_uid(raw)
+    except icalref.ParseError:
+        return None
+
+
 class Runner:
     def __init__(self, program, observers=()):
         self.program = program
@@ -271,7 +322,11 @@ class Runner:
         op = step["op"]
         self.stats["op:" + op] += 1
         touched = getattr(self, "op_" + op.replace("-", "_"))(step)
+        self.last_touched = set(touched or ())
         self.audit(touched or set(), full=(op == "RESTART"), fe=step.get("afe", "wsgi"), step=step)
+        for name in ("uid", "etagviews", "ctag", "git", "sync", "props", "hrefs"):
+            if name in self.obs:
+                getattr(self, "obs_" + name)(step)
         for h in self.hooks:
             h(self, step)
 
@@ -288,6 +343,8 @@ class Runner:
         ack = dav.acknowledged(r)
         self.last = {"op": "PUT", "ack": ack, "resp": r, "coll": coll, "name": name, "hdrs": hdrs, "body": body, "existed": coll in self.model.colls and name in self.model.colls[coll].members}
         self._expect_noack_into_missing(ack, coll, "PUT")
+        self.expect_cond("PUT", st, r, ack, coll, name, hdrs)
+        self.expect_uid("PUT", st, r, ack, coll, name, body)
         if r.status >= 500:
             self.stats["5xx"] += 1
             self.note5xx(st, r)
@@ -315,6 +372,7 @@ class Runner:
         ack = dav.acknowledged(r)
         self.last = {"op": "POST", "ack": ack, "resp": r, "coll": coll, "body": body}
         self._expect_noack_into_missing(ack, coll, "POST")
+        self.expect_uid("POST", st, r, ack, coll, None, body)
         if r.status >= 500:
             self.stats["5xx"] += 1
             self.note5xx(st, r)
@@ -346,6 +404,8 @@ class Runner:
         r = self.req(st["fe"], "DELETE", path, hdrs, None)
         ack = dav.acknowledged(r)
         self.last = {"op": "DELETE", "ack": ack, "resp": r, "coll": coll, "name": name, "hdrs": hdrs}
+        if name is not None:
+            self.expect_cond("DELETE", st, r, ack, coll, name, hdrs)
         if r.status >= 500:
             self.stats["5xx"] += 1
             self.note5xx(st, r)
@@ -472,6 +532,8 @@ class Runner:
         hdrs = self.cond_headers(st.get("cond"), coll, name)
         r = self.req(st["fe"], st.get("method", "GET"), path, hdrs, None)
         self.last = {"op": st.get("method", "GET"), "resp": r, "coll": coll, "name": name, "hdrs": hdrs, "ack": False}
+        if name is not None:
+            self.expect_cond(st.get("method", "GET"), st, r, False, coll, name, hdrs)
         if r.status >= 500:
             self.stats["5xx"] += 1
             self.note5xx(st, r)
@@ -521,6 +583,195 @@ class Runner:
     def note5xx(self, st, r):
         key = f"{st['op']}:{(r.exc or '')[:100] or r.body[:80]!r}"
         self.stats["5xx:" + key] += 1
+
+
+    # -- C03: conditional requests -------------------------------------------
+    def expect_cond(self, method, st, r, ack, coll, name, hdrs):
+        if "cond" not in self.obs:
+            return
+        # the property speaks about If-Match on PUT/DELETE, If-None-Match on PUT and on GET/HEAD
+        relevant = {"PUT": ("if-match", "if-none-match"), "DELETE": ("if-match",)}.get(method, ("if-none-match",))
+        chdrs = [(k, v) for k, v in hdrs if k.lower() in relevant]
+        if not chdrs:
+            return
+        mc = self.model.colls.get(coll)
+        exists = mc is not None and name in mc.members
+        cur = self.cur_etag.get((coll, name)) if exists else None
+        passes, decided = cond_truth(chdrs, exists, cur)
+        kinds = "+".join(sorted({k.lower() for k, _ in chdrs}))
+        self.stats[f"cond:{method}:{kinds}:{'decided' if decided else 'malformed'}:{'pass' if passes else 'fail'}"] += 1
+        stale = any(it["kind"] in ("stale",) for c in st.get("cond") or [] for it in c["items"]) or (not exists and any(it["kind"] == "star" for c in st.get("cond") or [] for it in c["items"]))
+        if stale and decided:
+            self.stats["cond:nontrivial"] += 1
+            self.cond_nontrivial = getattr(self, "cond_nontrivial", set())
+            self.cond_nontrivial.add((method, kinds, st.get("fe"), passes))
+        desc = f"{method} {coll}/{name} via {st.get('fe')} with {chdrs} (resource {'exists, ETag ' + str(cur) if exists else 'absent'})"
+        if method in ("PUT", "DELETE"):
+            if not decided:
+                if not passes and ack and False:
+                    pass
+                return  # either "not matching" or 400 allowed; "no-ack => no change" is checked by the audit
+            if not passes:
+                if method == "DELETE" and not exists and r.status == 404:
+                    return
+                if ack or r.status != 412:
+                    self.violation("cond", f"{method.lower()}-precondition-false-not-412", f"{desc}: precondition is false but the answer was {r.status}")
+            else:
+                if r.status == 412:
+                    self.violation("cond", f"{method.lower()}-precondition-true-412", f"{desc}: precondition holds but the answer was 412")
+        else:
+            if not exists:
+                return
+            if not decided:
+                return
+            has_inm = any(k.lower() == "if-none-match" for k, _ in chdrs)
+            if has_inm and not passes:
+                if r.status != 304 or r.body:
+                    self.violation("cond", "get-inm-match-not-304", f"{desc}: expected 304 without body, got {r.status} with {len(r.body)} body bytes")
+            elif has_inm and passes:
+                if r.status == 304:
+                    self.violation("cond", "get-inm-nomatch-304", f"{desc}: If-None-Match does not match but the answer was 304")
+
+    # -- C06: UID uniqueness -------------------------------------------------------
+    def expect_uid(self, method, st, r, ack, coll, name, body):
+        if "uid" not in self.obs:
+            return
+        mc = self.model.colls.get(coll)
+        if mc is None:
+            return
+        ctype = st["ctype"]
+        if name is not None and name in mc.members:
+            # overwrite: the resource keeps its content type (extension decides)
+            is_cal = name.endswith(".ics")
+        else:
+            is_cal = ctype.split(";")[0].strip() == "text/calendar"
+        if not is_cal:
+            return
+        try:
+            uid = icalref.calendar_uid(body)
+        except icalref.ParseError:
+            return
+        holders = [n for n, m in mc.members.items() if n != name and uid is not None and uid_of_member(n, m.raw, m.ctype) == uid]
+        refused_uid = b"no-uid-conflict" in r.body
+        if holders:
+            self.stats["uid:real-conflict"] += 1
+            if ack or not refused_uid:
+                # a failing If-Match/If-None-Match precondition may legitimately come first
+                if not ack and r.status == 412:
+                    return
+                self.violation("uid", "conflict-not-refused", f"{method} {coll}/{name} with UID {uid!r} held by {holders}: answered {r.status} (acknowledged={ack})")
+        else:
+            self.stats["uid:no-conflict"] += 1
+            if refused_uid:
+                self.violation("uid", "refused-without-conflict", f"{method} {coll}/{name} with UID {uid!r}: refused as no-uid-conflict although no other member of {coll} holds that UID (members: { {n: uid_of_member(n, m.raw, m.ctype) for n, m in mc.members.items()} })")
+            was_held = getattr(self, "uid_history", {}).get((coll, uid))
+            if was_held and uid is not None and not refused_uid and ack and was_held != name:
+                self.stats["uid:reuse-after-release"] += 1
+
+    def obs_uid(self, step):
+        """Invariant: UIDs of the calendar objects of one collection are pairwise distinct."""
+        self.uid_history = getattr(self, "uid_history", {})
+        for coll, mc in self.model.colls.items():
+            seen = {}
+            for n, m in mc.members.items():
+                u = uid_of_member(n, m.raw, m.ctype)
+                if u is None:
+                    continue
+                if u in seen:
+                    self.violation("uid", "duplicate-uid", f"{coll}: members {seen[u]!r} and {n!r} both carry UID {u!r}")
+                seen[u] = n
+                self.uid_history[(coll, u)] = n
+
+    # -- C02: ETag views ---------------------------------------------------------------
+    def obs_etagviews(self, step):
+        fe = step.get("afe", "wsgi") if step else "wsgi"
+        touched = self.last_touched
+        last = self.last
+        for coll in sorted(touched):
+            mc = self.model.colls.get(coll)
+            if mc is None or not mc.members:
+                continue
+            names = sorted(mc.members)
+            views = collections.defaultdict(dict)  # name -> view -> etag
+            for n in names:
+                views[n]["propfind"] = self.cur_etag.get((coll, n))
+                r = self.req(fe, "GET", self.member_path(coll, n), None, None)
+                views[n]["get"] = r.header("ETag")
+                r = self.req(fe, "HEAD", self.member_path(coll, n), None, None)
+                views[n]["head"] = r.header("ETag")
+            if last.get("ack") and last.get("op") == "PUT" and last.get("coll") == coll and last.get("name") in mc.members:
+                views[last["name"]]["put"] = last.get("etag")
+            # sync-collection from the empty token
+            r = self.req(fe, "REPORT", coll + "/", [("Depth", "1"), dav.XML_CT], dav.sync_body(""))
+            ms = dav.parse_ms(r)
+            if ms is not None and not ms.has_error():
+                for resp in ms.responses:
+                    n = name_from_href(resp.href)
+                    if n in mc.members:
+                        views[n]["sync"] = resp.prop_text(P_ETAG)
+            if mc.kind in ("calendar", "addressbook"):
+                kind = mc.kind
+                sel = [n for n in names if n.endswith(".ics" if kind == "calendar" else ".vcf")]
+                if sel:
+                    hrefs = [self.world.url(self.member_path(coll, n)) for n in sel]
+                    r = self.req(fe, "REPORT", coll + "/", [("Depth", "1"), dav.XML_CT], dav.multiget_body(kind, hrefs, data=False))
+                    ms = dav.parse_ms(r)
+                    if ms is not None:
+                        for resp in ms.responses:
+                            n = name_from_href(resp.href)
+                            if n in mc.members and resp.prop_text(P_ETAG) is not None:
+                                views[n]["multiget"] = resp.prop_text(P_ETAG)
+                    body = dav.calquery_body(dav.MATCH_ALL_CAL, data=False) if kind == "calendar" else dav.abquery_body(None, data=False)
+                    r = self.req(fe, "REPORT", coll + "/", [("Depth", "1"), dav.XML_CT], body)
+                    ms = dav.parse_ms(r)
+                    if ms is not None:
+                        for resp in ms.responses:
+                            n = name_from_href(resp.href)
+                            if n in mc.members and resp.prop_text(P_ETAG) is not None:
+                                views[n]["query"] = resp.prop_text(P_ETAG)
+            for n, vs in views.items():
+                for v in vs:
+                    self.stats["view:" + v] += 1
+                vals = set(vs.values())
+                if len(vals) > 1 or None in vals:
+                    self.violation("etag-views", "views-disagree", f"{coll}/{n}: ETag views {dict(vs)}")
+
+    # -- C08: collection tags -------------------------------------------------------
+    TAG_PROPS = [P_CTAG, P_CSCTAG, P_SYNC, P_ETAG]
+
+    def read_tags(self, coll, fe):
+        r = self.req(fe, "PROPFIND", coll + "/", [("Depth", "0"), dav.XML_CT], dav.propfind_body(self.TAG_PROPS))
+        ms = dav.parse_ms(r)
+        if ms is None or not ms.responses:
+            self.violation("ctag", "propfind-failed", f"PROPFIND of tags on {coll}: {r.status} {r.exc or r.body[:200]!r}")
+        resp = ms.responses[0]
+        vals = {p: resp.prop_text(p) for p in self.TAG_PROPS}
+        return vals
+
+    def obs_ctag(self, step):
+        fe = step.get("afe", "wsgi") if step else "wsgi"
+        self.incarnation = getattr(self, "incarnation", collections.Counter())
+        for coll, mc in self.model.colls.items():
+            if getattr(mc, "_inc", None) is None:
+                self.incarnation[coll] += 1
+                mc._inc = self.incarnation[coll]
+            vals = self.read_tags(coll, fe)
+            norm = {p: (v.strip('"') if v is not None else None) for p, v in vals.items()}
+            if len(set(norm.values())) != 1 or None in norm.values():
+                self.violation("ctag", "views-disagree", f"{coll}: tag views {vals}")
+            tag = norm[P_CTAG]
+            hist = self.tag_hist[(coll, mc._inc)]
+            entry = (mc.content_key(), mc.epoch, self.coll_writes[coll], tag, self.step_no)
+            for ck, ep, wr, t, sn in hist:
+                if ck != entry[0] and t == tag:
+                    self.violation("ctag", "different-content-same-tag", f"{coll}: steps {sn} and {self.step_no} have different members/contents but the same tag {tag}")
+                if wr == entry[2] and t != tag:
+                    self.violation("ctag", "tag-changed-without-write", f"{coll}: tag changed {t} -> {tag} between steps {sn} and {self.step_no} although no write to this collection was acknowledged in between")
+                if ck == entry[0] and ep == entry[1] and t != tag:
+                    self.violation("ctag", "same-content-different-tag", f"{coll}: steps {sn} and {self.step_no} have identical members, contents and properties but tags {t} and {tag}")
+                if ck == entry[0] and wr != entry[2] and sn < self.step_no:
+                    self.stats["ctag:returned-to-earlier-content"] += 1
+            hist.append(entry)
 
     # -- the content audit (C01 oracle) ---------------------------------------
     LIST_PROPS = [P_ETAG, P_RT]
